@@ -52,3 +52,97 @@ def rule_single_reader(ctx, R):
                             det += " = " + render(init)
                 ctx.check(R, "%s::%s/parser-input-is-stripped" % (f.rsplit("/", 1)[-1], fn["name"]), ok, "ParseAstParser::parse(%s)" % det[:120], site(f, c))
     ctx.floor(R, "parser entry call sites", n, 2)
+
+
+RAW_TEXT_CARRIERS = [
+    # (file, function, how the raw text of a file enters the function)
+    ("parser/src/lib.rs", "parse_file", ("tuple-of", "open_file", 1)),
+    ("parser/src/parser_logic.rs", "parse_file", ("param", 0)),
+    ("parser/src/parser_logic.rs", "parse_string", ("param", 0)),
+    ("parser/src/parser_logic.rs", "parse_definition", ("param", 0)),
+]
+RAW_TEXT_CONSUMERS = {"preprocess": "the comment stripper", "parse_file": "the parser entry (strips first)", "parse_string": "the parser entry (strips first)", "parse_definition": "the parser entry (strips first)",
+                      "add_file": "the file table (the text shown under labels)"}
+
+
+def rule_raw_text_readers(ctx, R):
+    """the raw text of a file - comments included - is handed to the comment stripper, to the parser entry that strips
+    first, and to the file table; nothing else looks at it (a test on the raw text makes a finding depend on comments)"""
+    import sgrep
+    from astlib import find_fn, last
+
+    n = 0
+    for f, name, how in RAW_TEXT_CARRIERS:
+        fn = find_fn(f, name)
+        if fn is None:
+            ctx.missing(R, "%s::%s" % (f.rsplit("/", 1)[-1], name))
+            continue
+        raw, since = None, 0
+        if how[0] == "param":
+            pv = sgrep.params(fn)
+            raw = pv[how[1]] if len(pv) > how[1] else None
+        else:
+            for l in walk(fn["body"]):
+                if l["k"] == "Local" and l.get("init") is not None and l["pat"]["k"] == "PTuple" and len(l["pat"]["elems"]) > how[2]:
+                    i0 = strip(l["init"])
+                    while i0["k"] == "Try":
+                        i0 = strip(i0["e"])
+                    if i0["k"] == "Call" and i0["func"]["k"] == "Path" and last(i0["func"]["path"]) == how[1]:
+                        el = l["pat"]["elems"][how[2]]
+                        if el["k"] == "PIdent":
+                            raw, since = el["name"], l.get("line", 0)
+        if raw is None:
+            ctx.missing(R, "%s::%s/raw-text-binding" % (f.rsplit("/", 1)[-1], name), "cannot find where the file's text enters the function")
+            continue
+        # a later `let <raw> = ..` shadows the raw text (e.g. `let src = preprocess(src, 0)..`)
+        until = None
+        for l in walk(fn["body"]):
+            if l["k"] == "Local" and l.get("line", 0) > since and any(b_["k"] == "PIdent" and b_["name"] == raw for b_ in walk(l["pat"])):
+                until = l
+                break
+        shadowed_from = until.get("line", 0) if until is not None else None
+        par = {}
+        for x in walk(fn["body"]):
+            for k_, v_ in x.items():
+                if isinstance(v_, dict):
+                    par[id(v_)] = (x, k_)
+                elif isinstance(v_, list):
+                    for y in v_:
+                        if isinstance(y, dict):
+                            par[id(y)] = (x, k_)
+        uses = []
+        inside_until = {id(x) for x in walk(until["init"])} if until is not None and until.get("init") is not None else set()
+        for x in walk(fn["body"]):
+            if x["k"] == "Path" and x["path"] == raw:
+                if shadowed_from is not None and x.get("line", 0) >= shadowed_from and id(x) not in inside_until:
+                    continue
+                uses.append(x)
+            if x["k"] == "Macro" and not x.get("parsed") and raw in str(x.get("raw", "")):
+                uses.append(x)
+        for u in uses:
+            n += 1
+            node = u
+            # through borrows, clones and views of the same text
+            while True:
+                p_ = par.get(id(node))
+                if p_ is None:
+                    break
+                pn, slot = p_
+                if pn["k"] in ("Ref", "Paren", "Group") or (pn["k"] == "Unary" and pn.get("op") == "*"):
+                    node = pn
+                    continue
+                if pn["k"] == "MethodCall" and slot == "recv" and not pn["args"] and pn["method"] in ("clone", "as_str", "to_string", "to_owned", "as_ref", "borrow", "deref"):
+                    node = pn
+                    continue
+                break
+            p_ = par.get(id(node))
+            ok, where = False, "?"
+            if p_ is not None:
+                pn, slot = p_
+                if pn["k"] == "Call" and slot == "args" and pn["func"]["k"] == "Path" and last(pn["func"]["path"]) in RAW_TEXT_CONSUMERS and last(pn["func"]["path"]) != "add_file":
+                    ok = True
+                elif pn["k"] == "MethodCall" and slot == "args" and pn["method"] == "add_file":
+                    ok = True
+                where = render(pn)[:90]
+            ctx.check(R, "%s::%s/raw-text-goes-to-the-stripper-only" % (f.rsplit("/", 1)[-1], name), ok, "the unstripped text `%s` is used in `%s`" % (raw, where) if not ok else "`%s` handed to %s" % (raw, where), site(f, u))
+    ctx.floor(R, "uses of unstripped file text", n, 5)
